@@ -709,6 +709,30 @@ int main(int argc, char **argv)
       libconfig_strvec_delete(libconfig_scanctx_cleanup(&sctx));
       config_destroy(&tmp); free(text);
     }
+    else if (OP("lexx", 3)) {
+      /* as lex, but over ALL bytes of the text (NUL bytes included: yy_scan_bytes) and with the include function
+       * <fn> (0 default, 1 the custom one: "" expands to no file, "?..." to NULL without an error) */
+      size_t len; char *text = unhex(w[2], &len); yyscan_t scanner; struct scan_context sctx; YYSTYPE lval; int t, k = 0;
+      config_t tmp; config_init(&tmp); config_set_include_func(&tmp, atoi(w[1]) ? multi_include : NULL);
+      libconfig_scanctx_init(&sctx, NULL); sctx.config = &tmp;
+      libconfig_yylex_init_extra(&sctx, &scanner);
+      libconfig_yy_scan_bytes(text ? text : "", (int)len, scanner);
+      libconfig_yyset_lineno(1, scanner);
+      while ((t = libconfig_yylex(&lval, scanner)) > 0 && k++ < 100000) {
+        printf("%d", t);
+        if (t == TOK_STRING) { printf(":"); puthex(lval.sval); free(lval.sval); }
+        else if (t == TOK_NAME) { printf(":"); puthex(lval.sval); }
+        else if (t == TOK_BOOLEAN || t == TOK_INTEGER || t == TOK_HEX) printf(":%d", lval.ival);
+        else if (t == TOK_INTEGER64 || t == TOK_HEX64) printf(":%lld", lval.llval);
+        else if (t == TOK_FLOAT) { printf(":"); putdbl(lval.fval); }
+        printf("@%d ", libconfig_yyget_lineno(scanner));
+      }
+      printf("eof");
+      { void *b; while ((b = libconfig_scanctx_pop_include(&sctx)) != NULL) libconfig_yy_delete_buffer((YY_BUFFER_STATE)b, scanner); }
+      libconfig_yylex_destroy(scanner);
+      libconfig_strvec_delete(libconfig_scanctx_cleanup(&sctx));
+      config_destroy(&tmp); free(text);
+    }
     else if (OP("err", 1) || OP("errio", 1)) { printf("%d ", config_error_type(&cfg)); puthex(config_error_text(&cfg)); printf(" "); puthex(config_error_file(&cfg)); printf(" %d", config_error_line(&cfg)); }
     else if (OP("dump", 1)) print_dump_line();
     else if (OP("wf", 1)) { const char *r = wf(config_root_setting(&cfg), NULL); printf("wf %s", r ? r : "ok"); }
